@@ -47,6 +47,9 @@ C={
  'C18':('exploration','reference-model monitor (tree of byte arrays) over multi-session sequences, refcount validator hook, porcupine register checking, crash observation and the Go race detector',
         'One to three sessions on a fresh ramfs instance run interleaved operation sequences with extreme offsets; every result is compared with a reference tree model; after all fids are clunked the refcount validator (hook) must be clean and a fresh attach must see the model tree. Concurrent rounds with 2-8 sessions check per-file read/write histories with porcupine (register model), the validator, crashes and race reports in ramfs/.',
         'trusted: tree model (DESIGN App. B) incl. its relations; hooks VerifNewServer/VerifValidate'),
+ 'C19':('exploration','twin-directory differential monitor (ufs session vs direct OS calls) with snapshot, read-content and stat/listing oracles',
+        'Operation sequences through the real ufs behind SFileSys on export A are mirrored step by step by the equivalent direct OS calls on twin B; after every step success/failure, bytes read, the full snapshots of A and B, and stat/listing through freshly walked fids versus Lstat/ReadDir of A are compared.',
+        'trusted: the mirroring table (create=OpenFile(O_CREATE|flags), DMDIR=Mkdir, wstat=Chmod/Rename/Truncate, remove=Remove); runs as root (no permission denials)'),
  'C20':('exploration','spy-session trace monitor plus server fid-table comparison',
         'Operation sequences on CFileSys over a spy Session in front of the real SFileSys: every operation must issue exactly the corresponding call on the entry own fid with normalised names, completed walks must yield usable entries, and the server fid table (hook) must always equal the fids of live entries and be empty at the end.',
         'trusted: spy accounting of entry->fid; reference path normaliser; hook'),
